@@ -98,6 +98,12 @@ def scenario(sim):
                     n = min(remaining[0], (1, 100, 5000, 40000, 100000)[sim.choose(5)])
                     remaining[0] -= n
                     data = b"d" * n
+                    if sim.choose(5) == 0:
+                        # text (the API accepts str and sends its UTF-8 form): n bytes as 2- or 3-byte characters
+                        ch_ = ("\xa7", "\u20ac")[sim.choose(2)]
+                        w_ = len(ch_.encode())
+                        data = ch_ * (n // w_) + "d" * (n % w_)
+                        sim.probe("text_payload")
                     op = sim.choose(4)
                     if op == 0:
                         chan.sendall(data)
@@ -106,9 +112,11 @@ def scenario(sim):
                     else:
                         f = chan.send if op == 2 else chan.send_stderr
                         while data:
-                            k = f(data)
+                            k = f(data)     # documented: the number of BYTES sent
                             if k == 0:
                                 return
+                            if isinstance(data, str):
+                                data = data.encode()
                             data = data[k:]
 
             got = [0]
